@@ -4,6 +4,7 @@ import lib
 from lib import c_hex, c_str, c_Z, c_N, c_bool, c_list, c_pv, c_exn, exn_class
 
 ALPHA = set(b"ABCDEFGHIJKLMNOPQRSTUVWXYZabcdefghijklmnopqrstuvwxyz0123456789-_")
+B64ALPHA = "ABCDEFGHIJKLMNOPQRSTUVWXYZabcdefghijklmnopqrstuvwxyz0123456789-_"
 # expected literals, transcribed from RFC 7518 6.2.1.2 / RFC 8812 and RFC 8037 / 7748 / 8032
 CURVE_L = {"P-256": 32, "P-384": 48, "P-521": 66, "secp256k1": 32}
 CURVE_BITS = {"P-256": 256, "P-384": 384, "P-521": 521, "secp256k1": 256}
@@ -26,6 +27,53 @@ SIG_OPS, ENC_OPS = ["sign", "verify"], ["encrypt", "decrypt", "wrapKey", "unwrap
 # (registry.in_choices(choices, is_list) since /repo 7fefb53): accepted => violation with
 # signature {"kind": "malformed-accepted", "mutation": "retype-choices", "member": ...}.
 REPORT_CHOICES_RETYPE = True
+
+
+# ---- public entry points of joserfc.jwk and of the key classes, as known to this check
+# ("covered": exercised below; "aux": not an import / export / generate path of key material)
+EP_MODULE = {"JWKRegistry": "covered", "OctKey": "covered", "RSAKey": "covered", "ECKey": "covered", "OKPKey": "covered",
+             "KeySet": "covered", "Key": "aux: type alias", "KeyCallable": "aux: type alias", "KeyFlexible": "aux: type alias",
+             "guess_key": "aux: key selection (C14)"}
+EP_KEY = {"import_key": "covered", "generate_key": "covered", "as_dict": "covered", "as_pem": "covered", "as_der": "covered",
+          "as_bytes": "covered", "thumbprint": "covered", "ensure_kid": "covered", "kid": "covered", "alg": "covered",
+          "public_key": "covered", "private_key": "covered", "raw_value": "covered", "is_private": "covered",
+          "dict_value": "covered", "keys": "covered", "get": "covered", "validate_dict_key": "covered",
+          "exchange_derive_key": "covered", "curve_name": "covered", "curve_key_size": "aux",
+          "check_alg": "aux: key usage (C06)", "check_key_op": "aux: key usage (C06)", "check_use": "aux: key usage (C06)",
+          "get_op_key": "aux: key usage (C06)",
+          "binding": "data", "key_type": "data", "operation_registry": "data", "param_registry": "data", "value_registry": "data",
+          "thumbprint_digest_method": "data", "private_only_fields": "data", "required_fields": "data"}
+EP_KEYSET = {"import_key_set": "covered", "generate_key_set": "covered", "as_dict": "covered", "keys": "covered",
+             "get_by_kid": "aux: key selection (C14)", "pick_random_key": "aux: key selection (C14)",
+             "algorithm_keys": "data", "registry_cls": "data"}
+EP_REGISTRY = {"import_key": "covered", "generate_key": "covered", "key_types": "data"}
+
+
+def strip_kid(d):
+    return {k: v for k, v in d.items() if k != "kid"}
+
+
+_cert_cache = {}
+
+
+def self_signed_cert(raw):
+    """PEM X.509 certificate for the public key of `raw`, signed by a fixed P-256 key (None when pyca cannot)."""
+    import datetime
+    from cryptography import x509
+    from cryptography.x509.oid import NameOID
+    from cryptography.hazmat.primitives import hashes, serialization as S
+    rsa, ec, *_ = _pyca()
+    if "ca" not in _cert_cache:
+        _cert_cache["ca"] = ec.derive_private_key(0xC11C11, ec.SECP256R1())
+    name = x509.Name([x509.NameAttribute(NameOID.COMMON_NAME, "c11")])
+    now = datetime.datetime(2026, 1, 1)
+    try:
+        cert = (x509.CertificateBuilder().subject_name(name).issuer_name(name).public_key(raw.public_key())
+                .serial_number(11).not_valid_before(now).not_valid_after(now + datetime.timedelta(days=3650))
+                .sign(_cert_cache["ca"], hashes.SHA256()))
+    except Exception:
+        return None
+    return cert.public_bytes(S.Encoding.PEM)
 
 
 def call(f, *a, **k):
@@ -472,6 +520,20 @@ def mutations(ctx, kt, base, other):
         add("padded", m, "any", dict(base, **{m: s + "===="}))
         add("empty", m, "any", dict(base, **{m: ""}))
         add("leading-zero", m, "any", dict(base, **{m: "AA" + s if len(s) % 4 != 3 else "AAAA" + s}))
+        o0 = strict_b64(s)
+        if o0 and len(o0) > 1:
+            # one octet short (RFC 7518 6.2.1.2: the full coordinate length is required; here the VALUE changes unless the octet is 0)
+            changes = o0[0] != 0
+            add("truncated", m, "refuse" if (kt == "EC" and changes) else "any", dict(base, **{m: b64u(o0[1:])}))
+            add("truncated", m, "refuse" if kt == "EC" else "any", dict(base, **{m: b64u(o0[:-1])}))
+        if len(s) % 4 in (2, 3) and s[-1] in B64ALPHA:
+            # non-canonical: same octets, other spare bits in the last character
+            add("noncanonical", m, "any", dict(base, **{m: s[:-1] + B64ALPHA[B64ALPHA.index(s[-1]) ^ 1]}))
+        if kt == "RSA" and m == "n" and o0:
+            add("n-even", m, "any", dict(base, n=b64u(o0[:-1] + bytes([o0[-1] & 0xFE]))))
+        if kt == "RSA" and m == "e":
+            for ev in ("AQ", "Ag", "AA", "AAEAAQ"):
+                add("e-small", m, "any", dict(base, e=ev))
         fl = flip_b64(s, rng)
         if kt == "EC":
             add("off-curve" if m in ("x", "y") else "d-mismatch", m, "refuse", dict(base, **{m: fl}))
@@ -867,18 +929,22 @@ def run(ctx):
 
     n_mal = 0
     for kt, name, base, other in bases:
+        base_nat = None
         for reg in (False, True):
             r = do_import(reg, kt, base, None)
             verdict_check("wellformed", None, "accept", kt, name, reg, base, None, r)
+            if r[0] == "ok" and not reg:
+                base_nat = r[1][1][2]
         muts = mutations(ctx, kt, base, other)
         fixture = name.startswith("fixture:")
         if fixture or (ctx.quick and kt == "RSA" and "2048" in name):
             muts = [m for m in muts if m[0] in ("wellformed", "delete-required", "partial-crt", "retype-choices")] + rng.sample(muts, min(20, len(muts)))
         elif ctx.quick:
             core = ("wellformed", "delete-required", "partial-crt", "retype-choices", "off-curve", "d-mismatch", "okp-mismatch",
-                    "wrong-length", "use-ops-consistent", "use-ops-contradictory", "use-ops-partly-contradictory", "other-crv")
+                    "wrong-length", "use-ops-consistent", "use-ops-contradictory", "use-ops-partly-contradictory", "other-crv",
+                    "truncated", "noncanonical", "n-even", "e-small")
             rest = [m for m in muts if m[0] not in core]
-            muts = [m for m in muts if m[0] in core] + rng.sample(rest, min(32, len(rest)))
+            muts = [m for m in muts if m[0] in core] + rng.sample(rest, min(24, len(rest)))
         for tag, member, expect, d in muts:
             n_mal += 1
             regs = (False, True) if (tag in ("unknown-kty", "other-kty", "delete-required", "retype", "retype-choices") and member == "kty") \
@@ -888,6 +954,11 @@ def run(ctx):
                     continue
                 r = do_import(reg, kt, d, None)
                 verdict_check(tag, member, expect, kt, name, reg, d, None, r)
+                if r[0] == "ok" and base_nat is not None and tag in ("noncanonical", "padded") and r[1][1][2] != base_nat and \
+                        not (kt == "RSA" and "d" in d and not all(c in d for c in CRT)):
+                    ctx.violation({"kind": "near-miss-material", "kty": kt, "mutation": tag},
+                                  "a %s spelling of member %s (same octets) imports to another key (%s)" % (tag, member, name),
+                                  {"fn": "import", "registry": reg, "kty": kt, "dict": d, "parameters": None, "mutation": tag, "member": member, "base": name})
         # parameters given at import: must end up in the key, contradictions refused
         for _ in range(ctx.scale(4, 20)):
             kind = rng.choice(["valid", "bad"])
@@ -953,6 +1024,356 @@ def run(ctx):
                               "validate_dict_key accepts a dict with missing / ill-typed / contradictory %s: %r" % (bad, d),
                               {"fn": "validate", "kty": kt, "dict": d})
 
+    # =============== 8. entry points, argument forms, histories / shared state, foreign serialisations
+    import inspect, hashlib, time as _time, itertools as _it
+    _t8 = {"start": _time.time()}
+    import joserfc.jwk as jwk_mod
+    from joserfc.jwk import KeySet
+    from cryptography.hazmat.primitives import serialization as S
+    rsa_m, ec_m, ed25519_m, *_rest = _pyca()
+    PRIVATE_MEMBERS = ("d", "p", "q", "dp", "dq", "qi", "oth", "k")
+
+    def ep_violation(kind, desc, rep, **sig):
+        ctx.violation(dict({"kind": kind}, **sig), desc, rep)
+
+    # ---- 8a. table of the public entry points, read at run time (fail closed)
+    unknown = []
+    for n in getattr(jwk_mod, "__all__", []):
+        if n not in EP_MODULE:
+            unknown.append("jwk." + n)
+    for cls_ in (OctKey, RSAKey, ECKey, OKPKey):
+        for n, _v in inspect.getmembers(cls_):
+            if not n.startswith("_") and n not in EP_KEY:
+                unknown.append("%s.%s" % (cls_.__name__, n))
+    for n, _v in inspect.getmembers(KeySet):
+        if not n.startswith("_") and n not in EP_KEYSET:
+            unknown.append("KeySet." + n)
+    for n, _v in inspect.getmembers(JWKRegistry):
+        if not n.startswith("_") and n not in EP_REGISTRY:
+            unknown.append("JWKRegistry." + n)
+    for n in ("import_key", "generate_key", "import_key_set", "generate_key_set", "load_key", "dump_key"):
+        if hasattr(jwk_mod, n) and n not in EP_MODULE:
+            unknown.append("jwk." + n)
+    ctx.coverage["entry_points"] = {"known": len(EP_MODULE) + len(EP_KEY) + len(EP_KEYSET) + len(EP_REGISTRY), "unknown": sorted(set(unknown))}
+    for n in sorted(set(unknown)):
+        ep_violation("entry-point-unknown", "public name %s of joserfc.jwk is not in the C11 entry-point table (an import / export / generate path may be unchecked)" % n,
+                     {"no_failing_input_found": True, "broken": "entry-point table of harness/props/c11.py", "name": n}, name=n)
+
+    def my_thumbprint(jwk):
+        req = {"oct": ["k", "kty"], "RSA": ["e", "kty", "n"], "EC": ["crv", "kty", "x", "y"], "OKP": ["crv", "kty", "x"]}[jwk["kty"]]
+        txt = json.dumps({m: jwk[m] for m in req}, separators=(",", ":"), sort_keys=True)
+        return b64u(hashlib.sha256(txt.encode()).digest())
+
+    def strip_private(jwk):
+        return {k_: v_ for k_, v_ in jwk.items() if k_ not in PRIVATE_MEMBERS}
+
+    def same_numbers(r, want):
+        return r[0] == "ok" and call(lambda: native_of(r[1].raw_value)) == ("ok", want)
+
+    # sample keys: one private JWK of every kind
+    samples = [("oct", {"kty": "oct", "k": b64u(bytes(rng.randrange(256) for _ in range(32)))})]
+    samples.append(("RSA", dict(rsa_dicts[1024])))
+    for crv in CURVE_L:
+        samples.append(("EC", dict(ec_dicts[crv][0])))
+    for crv in OKP_L:
+        samples.append(("OKP", dict(okp_dicts[crv][0])))
+
+    for kt, jwk in samples:
+        cls = KEYCLS[kt]
+        rep = {"fn": "import", "registry": False, "kty": kt, "dict": jwk, "parameters": None}
+        label = "%s/%s" % (kt, jwk.get("crv", ""))
+        key = cls.import_key(dict(jwk))
+        nat = native_of(key.raw_value)
+        pubnat = public_of(nat)
+        bump("entry:sample")
+        ctx.note_case(("entry", kt, jdump(jwk)))
+        # ---- 8b. accessors
+        acc = call(lambda: (key.is_private, native_of(key.private_key), native_of(key.public_key), key.dict_value == key.as_dict(),
+                            sorted(key.keys()) == sorted(key.as_dict()), key.get("kty"), key["kty"], key.kid, key.get("nope", "dflt"), key.key_type))
+        if acc != ("ok", (True, nat, pubnat if kt != "oct" else nat, True, True, kt, kt, None, "dflt", kt)):
+            ep_violation("accessor", "accessors of an imported %s key disagree with its material: %r" % (label, acc), rep, kty=kt)
+        if kt != "oct":
+            pk = cls.import_key(strip_private(jwk))
+            acc = call(lambda: (pk.is_private, pk.private_key, native_of(pk.public_key), native_of(pk.raw_value)))
+            if acc != ("ok", (False, None, pubnat, pubnat)):
+                ep_violation("accessor", "accessors of an imported public %s key: %r" % (label, acc), rep, kty=kt)
+            if kt in ("EC", "OKP"):
+                cn = call(lambda: key.curve_name)
+                if cn != ("ok", jwk["crv"]):
+                    ep_violation("accessor", "curve_name of %s is %r" % (label, cn), rep, kty=kt)
+        # ---- thumbprint / ensure_kid / kid: do not touch the material, agree between a key and its re-import
+        tp = call(key.thumbprint)
+        k2 = cls.import_key(dict(jwk))
+        before = k2.as_dict()
+        ek = call(lambda: (k2.ensure_kid(), k2.kid, k2.as_dict(), native_of(k2.raw_value)))
+        if tp != ("ok", my_thumbprint(jwk)) or ek[0] != "ok" or ek[1][1] != tp[1] or ek[1][2] != {**before, "kid": tp[1]} or ek[1][3] != nat:
+            ep_violation("thumbprint-kid", "thumbprint / ensure_kid of %s: %r %r (RFC 7638 value %s)" % (label, tp, ek[1] if ek[0] == "ok" else ek, my_thumbprint(jwk)), rep, kty=kt)
+        k3 = cls.import_key(dict(jwk, kid="given"))
+        k3.ensure_kid()
+        if k3.kid != "given" or k3.as_dict() != dict(jwk, kid="given"):
+            ep_violation("thumbprint-kid", "ensure_kid replaced a given kid (%s)" % label, rep, kty=kt)
+        # ---- 8c. argument forms: positional / keyword, parameters None / {} / duplicates / conflicts, registry with key_type
+        forms = [
+            ("kw", lambda: cls.import_key(value=dict(jwk), parameters=None), jwk),
+            ("empty-params", lambda: cls.import_key(dict(jwk), {}), jwk),
+            ("kw-empty-params", lambda: cls.import_key(value=dict(jwk), parameters={}), jwk),
+            ("dup-params", lambda: cls.import_key(dict(jwk), {"kty": kt}), jwk),
+            ("registry-pos", lambda: JWKRegistry.import_key(dict(jwk), None, None), jwk),
+            ("registry-kw", lambda: JWKRegistry.import_key(data=dict(jwk), key_type=kt, parameters={}), jwk),
+            ("registry-key_type", lambda: JWKRegistry.import_key(dict(jwk), kt), jwk),
+            ("conflict-params", lambda: cls.import_key(dict(jwk, kid="a", alg="X"), {"kid": "b"}), dict(jwk, kid="b", alg="X")),
+            ("falsy-members", lambda: cls.import_key(dict(jwk, kid="", key_ops=[], x5c=[], alg="")), dict(jwk, kid="", key_ops=[], x5c=[], alg="")),
+            ("falsy-params", lambda: cls.import_key(dict(jwk), {"kid": "", "key_ops": [], "x5c": [], "alg": ""}), dict(jwk, kid="", key_ops=[], x5c=[], alg="")),
+            ("falsy-use-ops", lambda: cls.import_key(dict(jwk, use="sig", key_ops=[])), dict(jwk, use="sig", key_ops=[])),
+            ("x5t-members", lambda: cls.import_key(dict(jwk), {"x5t": "YQ", "x5t#S256": "Yg", "x5u": "https://x/y", "x5c": ["MIIB"]}),
+             dict(jwk, **{"x5t": "YQ", "x5t#S256": "Yg", "x5u": "https://x/y", "x5c": ["MIIB"]})),
+        ]
+        for fname, fn, want in forms:
+            r = call(fn)
+            bump("entry:form")
+            ctx.note_case(("entry-form", kt, fname, jdump(jwk)))
+            if not same_numbers(r, nat) or r[1].as_dict() != want or list(r[1].as_dict()) != list(want):
+                ep_violation("entry-form", "%s import of a well-formed %s JWK: %r" % (fname, label, r[1].as_dict() if r[0] == "ok" else r[1]),
+                             dict(rep, form=fname), kty=kt, form=fname)
+        # falsy values of the WRONG type must not be skipped by the validators
+        for m, bad in [("kid", 0), ("kid", False), ("kid", []), ("kid", {}), ("alg", 0), ("alg", []), ("x5c", ""), ("x5c", 0), ("x5c", {}), ("x5c", False),
+                       ("key_ops", ""), ("key_ops", 0), ("key_ops", {}), ("key_ops", False), ("use", ""), ("use", 0), ("use", []), ("use", False),
+                       ("x5u", ""), ("x5u", 0), ("x5t", 0), ("x5t", []), ("x5t#S256", False), ("x5t#S256", {}), ("kty", 0), ("kty", [])]:
+            for how in ("member", "parameter"):
+                if how == "parameter" and m == "kty":
+                    continue
+                dd = dict(jwk, **{m: bad}) if how == "member" else dict(jwk)
+                pp = None if how == "member" else {m: bad}
+                r = call(lambda: cls.import_key(copy.deepcopy(dd), copy.deepcopy(pp)))
+                ctx.note_case(("entry-falsy", kt, m, repr(bad), how))
+                if r[0] == "ok":
+                    ep_violation("malformed-accepted", "falsy ill-typed %s %s = %r accepted (%s)" % (how, m, bad, label),
+                                 {"fn": "import", "registry": False, "kty": kt, "dict": dd, "parameters": pp}, mutation="retype-falsy", kty=kt, member=m)
+        # invalid only in combination: dict use + parameters key_ops
+        for dd, pp in [(dict(jwk, use="sig"), {"key_ops": ["decrypt"]}), (dict(jwk, key_ops=["sign"]), {"use": "enc"}),
+                       (dict(jwk, use="enc", key_ops=["deriveKey"]), {"key_ops": ["deriveKey", "sign"]})]:
+            r = call(lambda: cls.import_key(copy.deepcopy(dd), copy.deepcopy(pp)))
+            ctx.note_case(("entry-combo", kt, jdump(pp)))
+            if r[0] == "ok":
+                ep_violation("malformed-accepted", "use/key_ops contradictory only after merging parameters %r accepted (%s)" % (pp, label),
+                             {"fn": "import", "registry": False, "kty": kt, "dict": dd, "parameters": pp}, mutation="use-ops-contradictory", kty=kt, member="parameters")
+        # ---- 8d. histories on one key object and aliasing with the caller's objects
+        kA, kB = cls.import_key(dict(jwk)), cls.import_key(dict(jwk))
+        seqA = call(lambda: [kA.as_dict(private=False) if kt != "oct" else kA.as_dict(), kA.as_dict(private=True), kA.as_dict(),
+                             kA.as_dict(private=False) if kt != "oct" else kA.as_dict(), kA.as_dict(private=True, zz=1), kA.as_dict()])
+        seqB = call(lambda: [kB.as_dict(), kB.as_dict(private=True), kB.as_dict(private=False) if kt != "oct" else kB.as_dict()])
+        pubj = strip_private(jwk) if kt != "oct" else jwk
+        if seqA != ("ok", [pubj, jwk, jwk, pubj, dict(jwk, zz=1), jwk]) or seqB != ("ok", [jwk, jwk, pubj]):
+            ep_violation("export-history", "repeated exports of one %s key object differ from the first ones: %r / %r" % (label, seqA, seqB), rep, kty=kt)
+        out = kA.as_dict()
+        out.pop("kty"); out["evil"] = 1
+        for m in list(out):
+            if m in PRIVATE_MEMBERS or m in ("x", "n", "crv"):
+                out[m] = "AAAA"
+        if kA.as_dict() != jwk or native_of(kA.raw_value) != nat:
+            ep_violation("aliasing", "changing the dict returned by as_dict() changed the %s key" % label, rep, kty=kt, what="export-top-level")
+        caller = dict(jwk, kid="c")
+        pshared = {"alg": "A1"}
+        kC, kD = cls.import_key(caller, pshared), cls.import_key(dict(jwk), pshared)
+        caller["kid"] = "changed"; caller.pop("kty"); caller["evil"] = 1; pshared["alg"] = "A2"; pshared["kid"] = "late"
+        if kC.as_dict() != dict(jwk, kid="c", alg="A1") or kD.as_dict() != dict(jwk, alg="A1"):
+            ep_violation("aliasing", "changing the caller's dict / parameters after import changed the %s key: %r" % (label, kC.as_dict()), rep, kty=kt, what="import-top-level")
+        pfix = {"alg": "A1", "key_ops": ["sign"] if kt != "OKP" or jwk["crv"].startswith("Ed") else ["deriveKey"]}
+        psnap = copy.deepcopy(pfix)
+        cls.import_key(dict(jwk), pfix)
+        JWKRegistry.import_key(dict(jwk), parameters=pfix)
+        if pfix != psnap:
+            ep_violation("aliasing", "import_key changed the caller's parameters dict: %r" % (pfix,), rep, kty=kt, what="parameters-mutated")
+        dsnap = copy.deepcopy(jwk)
+        dcall = copy.deepcopy(jwk)
+        cls.import_key(dcall, {"kid": "p"}).as_dict(private=False if kt != "oct" else None, zz=1)
+        if dcall != dsnap or list(dcall) != list(dsnap):
+            ep_violation("aliasing", "import_key / as_dict changed the caller's JWK dict: %r" % (dcall,), rep, kty=kt, what="dict-mutated")
+        nested = dict(jwk, key_ops=["sign"] if kt != "OKP" or jwk["crv"].startswith("Ed") else ["deriveKey"])
+        kN = cls.import_key(nested)
+        nested["key_ops"].append("bogus")
+        if kN.as_dict()["key_ops"] != [pfix["key_ops"][0]]:
+            deviations.setdefault("nested-list-aliased-with-caller", {"kty": kt, "note": "appending to the caller's key_ops list after import changes key.as_dict()['key_ops'] (shallow copy)"})
+        # ---- 8e. PEM / DER entry points
+        if kt != "oct":
+            raw = key.raw_value
+            pem = key.as_pem(private=True)
+            pempub = key.as_pem(private=False)
+            if call(lambda: (key.as_bytes(), key.as_bytes("PEM", True), key.as_bytes(encoding="DER", private=False), key.as_bytes(private=False))) != \
+                    ("ok", (pem, pem, key.as_der(private=False), pempub)):
+                ep_violation("entry-form", "as_bytes disagrees with as_pem / as_der (%s)" % label, rep, kty=kt, form="as_bytes")
+            if call(lambda: key.as_pem(private=False, password="pw")) != ("ok", pempub):
+                ep_violation("entry-form", "public PEM export with a password differs from the one without (%s)" % label, rep, kty=kt, form="public-password")
+            variants = [("bytes", pem, None, nat, True), ("str", pem.decode("ascii"), None, nat, True), ("bytearray", bytearray(pem), None, nat, False),
+                        ("trailing-newlines", pem + b"\n\n", None, nat, True), ("leading-whitespace", b"\n \t" + pem, None, nat, False),
+                        ("crlf", pem.replace(b"\n", b"\r\n"), None, nat, False), ("bom", b"\xef\xbb\xbf" + pem, None, nat, False),
+                        ("public-str", pempub.decode("ascii"), None, pubnat, True), ("public-crlf", pempub.replace(b"\n", b"\r\n"), None, pubnat, False)]
+            builders = [
+                ("pkcs8-pem-enc-bytespw", lambda: raw.private_bytes(S.Encoding.PEM, S.PrivateFormat.PKCS8, S.BestAvailableEncryption(b"pw1")), b"pw1", nat),
+                ("pkcs8-der-enc-strpw", lambda: raw.private_bytes(S.Encoding.DER, S.PrivateFormat.PKCS8, S.BestAvailableEncryption(b"pw2")), "pw2", nat),
+                ("pkcs8-der", lambda: raw.private_bytes(S.Encoding.DER, S.PrivateFormat.PKCS8, S.NoEncryption()), None, nat),
+                ("traditional-pem", lambda: raw.private_bytes(S.Encoding.PEM, S.PrivateFormat.TraditionalOpenSSL, S.NoEncryption()), None, nat),
+                ("traditional-der", lambda: raw.private_bytes(S.Encoding.DER, S.PrivateFormat.TraditionalOpenSSL, S.NoEncryption()), None, nat),
+                ("traditional-pem-enc", lambda: raw.private_bytes(S.Encoding.PEM, S.PrivateFormat.TraditionalOpenSSL, S.BestAvailableEncryption(b"pw3")), "pw3", nat),
+                ("spki-der", lambda: raw.public_key().public_bytes(S.Encoding.DER, S.PublicFormat.SubjectPublicKeyInfo), None, pubnat),
+                ("pkcs1-public-pem", lambda: raw.public_key().public_bytes(S.Encoding.PEM, S.PublicFormat.PKCS1), None, pubnat),
+                ("pkcs1-public-der", lambda: raw.public_key().public_bytes(S.Encoding.DER, S.PublicFormat.PKCS1), None, pubnat),
+                ("openssh-public", lambda: raw.public_key().public_bytes(S.Encoding.OpenSSH, S.PublicFormat.OpenSSH), None, pubnat),
+                ("openssh-private", lambda: raw.private_bytes(S.Encoding.PEM, S.PrivateFormat.OpenSSH, S.NoEncryption()), None, nat),
+                ("openssh-private-enc", lambda: raw.private_bytes(S.Encoding.PEM, S.PrivateFormat.OpenSSH, S.BestAvailableEncryption(b"pw4")), b"pw4", nat),
+                ("x509-certificate", lambda: self_signed_cert(raw), None, pubnat),
+            ]
+            for fname, build, pw, want in builders:
+                b = call(build)
+                if b[0] == "ok" and b[1] is not None:       # pyca cannot write every form for every key kind
+                    variants.append((fname, b[1], pw, want, True))
+            for fname, blob, pw, want, must in variants:
+                r = call(lambda: cls.import_key(blob, None, pw))
+                bump("entry:bytes:" + fname)
+                ctx.note_case(("entry-bytes", kt, label, fname))
+                brep = dict(rep, form=fname, blob=(blob if isinstance(blob, str) else bytes(blob).hex()), password=repr(pw))
+                if r[0] == "ok" and not same_numbers(r, want):
+                    ep_violation("reimport-material", "import of the %s form of %s gives another key: %r" % (fname, label, call(lambda: native_of(r[1].raw_value))),
+                                 brep, kty=kt, form=fname)
+                elif r[0] != "ok" and must:
+                    ep_violation("reimport-raises", "import of the %s form of %s raised %r" % (fname, label, r[1]), brep, kty=kt, form=fname)
+                elif r[0] == "ok" and pw is not None:
+                    for wrong in ("nope", None):
+                        r2 = call(lambda: cls.import_key(blob, None, wrong))
+                        if r2[0] == "ok":
+                            ep_violation("password-ignored", "the encrypted %s form of %s opens with password %r" % (fname, label, wrong), brep, kty=kt, form=fname)
+                if r[0] == "ok" and fname in ("str", "pkcs8-der", "openssh-public"):
+                    r5 = call(lambda: JWKRegistry.import_key(blob, kt, {"kid": "r"}))
+                    if not same_numbers(r5, want) or r5[1].kid != "r":
+                        ep_violation("reimport-material", "JWKRegistry.import_key(%s form, %r, parameters) of %s: %r" % (fname, kt, label, r5[1]), brep, kty=kt, form=fname + "-registry")
+            # export with a password given as str / bytes
+            pw_pairs = [(pwx, enc) for pwx in ("pässword", b"\x00\x01pw") for enc in ("PEM", "DER")]
+            if ctx.quick and kt != "RSA":
+                pw_pairs = [rng.choice(pw_pairs)]
+            for pwx, enc in pw_pairs:
+                if True:
+                    e = call(lambda: key.as_bytes(enc, True, pwx))
+                    r = call(lambda: cls.import_key(e[1], None, pwx)) if e[0] == "ok" else e
+                    ctx.note_case(("entry-pw", kt, label, enc, repr(pwx)))
+                    if not same_numbers(r, nat) or call(lambda: cls.import_key(e[1], None, "other"))[0] == "ok" or call(lambda: cls.import_key(e[1]))[0] == "ok":
+                        ep_violation("password-ignored", "%s export of %s with password %r does not round-trip under exactly that password: %r" % (enc, label, pwx, r[1]),
+                                     rep, kty=kt, form="password-" + enc)
+
+    _t8["samples"] = _time.time()
+    # ---- 8f. key types interleaved in every order (state shared between key classes)
+    by_type = {}
+    for kt, jwk in samples:
+        by_type.setdefault(kt, jwk)
+    orders = list(_it.permutations(["oct", "RSA", "EC", "OKP"]))
+    if ctx.quick:
+        orders = rng.sample(orders, 8) + [("RSA", "EC", "RSA", "OKP"), ("EC", "RSA", "oct", "EC")]
+    for order in orders:
+        ctx.note_case(("entry-order", order))
+        bump("entry:order")
+        for kt in order:
+            jwk = by_type[kt]
+            kk = KEYCLS[kt].import_key(dict(jwk))
+            got = call(lambda: (kk.as_dict(private=False) if kt != "oct" else kk.as_dict(), kk.as_dict(private=True)))
+            if got != ("ok", (strip_private(jwk) if kt != "oct" else jwk, jwk)):
+                ep_violation("export-history", "after handling key types in the order %r the %s exports are %r" % (order, kt, got),
+                             {"fn": "import", "registry": False, "kty": kt, "dict": jwk, "parameters": None, "order": list(order)}, kty=kt)
+
+    # ---- 8g. KeySet and the generate entry points
+    all_jwks = [dict(j) for _, j in samples]
+    ks = call(lambda: KeySet.import_key_set({"keys": copy.deepcopy(all_jwks)}))
+    ctx.note_case(("entry-keyset", len(all_jwks)))
+    if ks[0] != "ok" or len(ks[1].keys) != len(all_jwks):
+        ep_violation("keyset", "KeySet.import_key_set of well-formed JWKs: %r" % (ks[1],), {"fn": "keyset", "keys": all_jwks})
+    else:
+        kset = ks[1]
+        full = call(lambda: kset.as_dict(private=True))
+        dflt = call(lambda: kset.as_dict())
+        pubv = call(lambda: kset.as_dict(private=False))
+        for i, jwk in enumerate(all_jwks):
+            kt = jwk["kty"]
+            member = kset.keys[i]
+            want_nat = native_of(KEYCLS[kt].import_key(dict(jwk)).raw_value)
+            okv = (native_of(member.raw_value) == want_nat and member.kid == my_thumbprint(jwk)
+                   and full[0] == "ok" and full[1]["keys"][i] == dict(jwk, kid=my_thumbprint(jwk))
+                   and dflt[0] == "ok" and dflt[1]["keys"][i] == dict(jwk, kid=my_thumbprint(jwk))
+                   and member.as_dict() == dict(jwk, kid=my_thumbprint(jwk))
+                   and pubv[0] == "ok" and pubv[1]["keys"][i] == dict(strip_private(jwk), kid=my_thumbprint(jwk)))
+            if not okv:
+                ep_violation("keyset", "KeySet member %d (%s) after import_key_set: full=%r public=%r" % (
+                    i, kt, full[1]["keys"][i] if full[0] == "ok" else full[1], pubv[1]["keys"][i] if pubv[0] == "ok" else pubv[1]),
+                    {"fn": "keyset", "keys": all_jwks, "index": i}, kty=kt)
+            elif kt != "oct":
+                back = call(lambda: native_of(JWKRegistry.import_key(pubv[1]["keys"][i]).raw_value))
+                if back != ("ok", public_of(want_nat)):
+                    ep_violation("keyset", "public KeySet export of member %d (%s) re-imports to %r" % (i, kt, back), {"fn": "keyset", "keys": all_jwks, "index": i}, kty=kt)
+        pubset = call(lambda: KeySet.import_key_set({"keys": [strip_private(j) for j in all_jwks if j["kty"] != "oct"]}, {"use": "sig"}))
+        if pubset[0] != "ok" or any(k_.get("use") != "sig" or k_.is_private for k_ in pubset[1].keys) or call(lambda: pubset[1].as_dict(private=True))[0] == "ok":
+            ep_violation("keyset", "KeySet of public keys with parameters: %r" % (pubset[1],), {"fn": "keyset", "keys": all_jwks})
+        ks2 = call(lambda: KeySet([KEYCLS[j["kty"]].import_key(dict(j)) for j in all_jwks]).as_dict())
+        if ks2[0] != "ok" or [strip_kid(x) for x in ks2[1]["keys"]] != all_jwks:
+            ep_violation("keyset", "KeySet(keys).as_dict(): %r" % (ks2[1],), {"fn": "keyset", "keys": all_jwks})
+        for bad in [{"keys": [all_jwks[0], dict(all_jwks[1], n="!!")]}, {"keys": [{"k": "AA"}]}, {"keys": [dict(all_jwks[2], use="sig", key_ops=["sign", "decrypt"])]}]:
+            rb = call(lambda: KeySet.import_key_set(copy.deepcopy(bad)))
+            if rb[0] == "ok":
+                ep_violation("malformed-accepted", "KeySet.import_key_set accepts a malformed member: %r" % (short(bad, 200),), {"fn": "keyset", "keys": bad["keys"]},
+                             mutation="keyset-member", kty="*", member="keys")
+    gens = [("oct", 128, None), ("oct", 8, {"kid": "g"}), ("RSA", 1024, None), ("EC", "P-521", {"use": "sig"}), ("EC", "secp256k1", None),
+            ("OKP", "Ed448", None), ("OKP", "X448", {"use": "enc"}), ("OKP", "X25519", None)]
+    for kt, arg, ps in gens:
+        for how in ("class", "registry", "registry-public", "auto_kid"):
+            if kt == "RSA" and how != "class" and ctx.quick:
+                continue
+            def g():
+                if how == "class":
+                    return KEYCLS[kt].generate_key(arg, ps)
+                if how == "registry":
+                    return JWKRegistry.generate_key(kt, arg, ps)
+                if how == "registry-public":
+                    return JWKRegistry.generate_key(kt, arg, ps, False)
+                return KEYCLS[kt].generate_key(arg, parameters=ps, private=True, auto_kid=True)
+            r = call(g)
+            ctx.note_case(("entry-generate", kt, arg, how))
+            bump("entry:generate")
+            if kt == "oct" and how == "registry-public":
+                if r[0] == "ok":
+                    ep_violation("generate", "a public oct key was generated", {"fn": "generate", "kty": kt, "arg": arg})
+                continue
+            if r[0] != "ok" or r[1].is_private != (how != "registry-public") or (how == "auto_kid" and r[1].kid != (ps or {}).get("kid", my_thumbprint(r[1].as_dict()))):
+                ep_violation("generate", "%s generate_key(%r, %r): %r" % (how, arg, ps, r[1]), {"fn": "generate", "kty": kt, "arg": arg, "how": how}, kty=kt)
+                continue
+            gk = r[1]
+            size_ok = {"oct": lambda: len(gk.raw_value) * 8 == arg, "RSA": lambda: gk.raw_value.key_size == arg,
+                       "EC": lambda: gk.curve_name == arg, "OKP": lambda: gk.curve_name == arg}[kt]()
+            if not size_ok:
+                ep_violation("generate", "%s generate_key(%r) produced a key of another size / curve" % (how, arg), {"fn": "generate", "kty": kt, "arg": arg, "how": how}, kty=kt)
+            if how != "auto_kid":
+                check_native_key(kt, KEYCLS[kt](gk.raw_value, gk.raw_value, ps), gk.raw_value, "%s/generated-%s" % (kt, how), ps)
+    gs = call(lambda: KeySet.generate_key_set("EC", "P-384", {"use": "sig"}, True, 3))
+    if gs[0] != "ok" or len(gs[1].keys) != 3 or len({k_.kid for k_ in gs[1].keys}) != 3 or any(k_.curve_name != "P-384" or k_.get("use") != "sig" for k_ in gs[1].keys):
+        ep_violation("generate", "KeySet.generate_key_set('EC', 'P-384', ..., count=3): %r" % (gs[1],), {"fn": "generate", "kty": "EC", "arg": "P-384", "how": "key_set"}, kty="EC")
+
+    _t8["keyset+generate"] = _time.time()
+    # ---- 8h. numbers whose bit length is 8k-1, 8k, 8k+1: export, independent reconstruction, re-import
+    for crv in CURVE_L:
+        L = CURVE_L[crv]
+        for dv in [(1 << (8 * (L - 1))) - 1, 1 << (8 * (L - 1)), (1 << (8 * (L - 1))) + 1, (1 << (8 * (L - 1) - 1)), (1 << (8 * (L - 2))) - 1,
+                   (1 << (CURVE_BITS[crv] - 2)) + 1, rng.getrandbits(8 * (L - 1) + 1) | (1 << (8 * (L - 1)))]:
+            rk = call(ec_m.derive_private_key, dv, ec_curve(crv))
+            if rk[0] == "ok" and (not ctx.quick or rng.random() < 0.7):
+                check_native_key("EC", ECKey(rk[1], rk[1], None), rk[1], "%s/d-bits-%d" % (crv, dv.bit_length()), None)
+    extra_rsa = [(1024, 3), (1025, 65537), (1031, 65537)] if ctx.quick else \
+        [(1024, 3), (2048, 3), (3072, 3), (1025, 65537), (1031, 65537), (1032, 65537), (1033, 3), (3072, 65537)]
+    for bits, e_ in extra_rsa:
+        rk = call(rsa_m.generate_private_key, e_, bits)
+        if rk[0] != "ok":
+            continue
+        heavy = (bits, e_) == (1024, 3)
+        check_native_key("RSA", RSAKey(rk[1], rk[1], None), rk[1], "RSA/%d-e%d" % (bits, e_), None, heavy=heavy)
+        pr = rk[1].public_key()
+        check_native_key("RSA", RSAKey(pr, pr, None), pr, "RSA/%d-e%d-public" % (bits, e_), None)
+
+    _t8["bit-lengths"] = _time.time()
+    ctx.notes.append("section 8 timing: " + ", ".join("%s %.1fs" % (k_, v_ - _t8["start"]) for k_, v_ in _t8.items() if k_ != "start"))
     # ---------------- coverage
     ctx.coverage["input_distribution"] = dict(sorted(dist.items()))
     ctx.coverage["ec_short_coordinates_found"] = ec_found
